@@ -325,6 +325,15 @@ func slice(i *interpreter, x, lo, hi, max value) value {
 func lookup(i *interpreter, instr *ssa.Lookup, x, idx value) value {
 	switch x := x.(type) { // map or string
 	case *omap:
+		elemT := instr.X.Type().Underlying().(*types.Map).Elem()
+		if x != nil && (x.assoc || (containsSym(idx) && x.scalarKeys(i) && i.keyEqTerm(idx, idx) != nil)) {
+			if mv, found, okm := x.assocLookup(i, idx, zero(elemT)); okm {
+				if instr.CommaOk {
+					return tuple{mv, found}
+				}
+				return mv
+			}
+		}
 		v, ok := x.lookup(i, idx)
 		if !ok {
 			v = zero(instr.X.Type().Underlying().(*types.Map).Elem())
